@@ -704,6 +704,7 @@ func typedAPI(repM, repU *Report, wM, wU *CaseWriter, r *rand.Rand, thorough boo
 	apiFuncTargets(repM, repU, r)
 	apiHookKeyOrder(repM, repU, r)
 	apiInterleavedTaps(repM)
+	apiOddsAndEnds(repM, repU)
 	apiPromotedRules(repU)
 	apiSameStringTypes(repU)
 	apiVeryLongChain(repM, "C01")
@@ -1909,5 +1910,108 @@ func apiRegistrationRace(rep *Report, rounds int) {
 	sb.Register(t)
 	if bad > 0 {
 		rep.violate("C19", "concurrent-result-differs", firstBad, fmt.Sprintf("%d rounds of 3 goroutines registering main.RaceReg concurrently and then using it", rounds))
+	}
+}
+
+// ---- odds and ends of the exported surface ----
+type regText struct{ N int }
+
+func (l regText) MarshalText() ([]byte, error) { return []byte(fmt.Sprintf("rt:%d", l.N)), nil }
+func (l *regText) UnmarshalText(bs []byte) error {
+	_, err := fmt.Sscanf(string(bs), "rt:%d", &l.N)
+	return err
+}
+
+func apiOddsAndEnds(repM, repU *Report) {
+	// a target that is neither a pointer nor a func
+	for _, tgt := range []any{5, "s", struct{ A int }{}, []int{1}} {
+		e := guard(func() error { return copyBudget(tokensFrom([]sb.Token{tokI(1)}), sb.Unmarshal(tgt)) })
+		repU.Evaluations++
+		if classOf(e) != "EBadTarget" || !isUnmarshalError(e) {
+			repU.violate("C05", "bad-target-accepted", fmt.Sprintf("a %T (not a pointer) as Unmarshal target: %v, expected a BadTargetType unmarshal error", tgt, e), fmt.Sprintf("target %T", tgt))
+		}
+	}
+	// UnmarshalFunc and a pointer to an SBUnmarshaler interface as targets
+	{
+		var got []sb.Token
+		uf := sb.UnmarshalFunc(func(ctx sb.Ctx, cont sb.Sink) sb.Sink {
+			return func(t *sb.Token) (sb.Sink, error) {
+				got = append(got, *t)
+				return cont, nil
+			}
+		})
+		type holder struct {
+			A int
+			F sb.UnmarshalFunc
+			B string
+		}
+		h := holder{F: uf}
+		ts := []sb.Token{tokK(sb.KindObject), tokS("A"), tokI(1), tokS("F"), tokS("for the func"), tokS("B"), tokS("b"), tokK(sb.KindObjectEnd)}
+		e := guard(func() error { return copyBudget(tokensFrom(ts), sb.Unmarshal(&h)) })
+		repU.Evaluations++
+		if e != nil || h.A != 1 || h.B != "b" || len(got) != 1 || got[0].Value != "for the func" {
+			repU.violate("C05", "unmarshal-func-target", fmt.Sprintf("an UnmarshalFunc field: %v, value %+v, the func saw [%s]", e, h.A, descTokens(got)), "UnmarshalFunc as a field")
+		}
+		var tup sb.Tuple
+		var su sb.SBUnmarshaler = &tup
+		e = guard(func() error {
+			return copyBudget(tokensFrom([]sb.Token{tokK(sb.KindTuple), tokI(4), tokK(sb.KindTupleEnd)}), sb.Unmarshal(&su))
+		})
+		repU.Evaluations++
+		if e != nil || len(tup) != 1 || tup[0] != any(4) {
+			repU.violate("C05", "unmarshal-func-target", fmt.Sprintf("a *SBUnmarshaler target holding a *Tuple: %v, tuple %v", e, tup), "*SBUnmarshaler target")
+		}
+	}
+	// a REGISTERED type bridged through Text marshalling: its name travels, a concrete target skips it, `any` resurrects it
+	{
+		t := reflect.TypeOf(regText{})
+		sb.Register(t)
+		v := regText{41}
+		ts, err := marshalTokens(v, nil)
+		repM.Evaluations++
+		want := []sb.Token{{Kind: sb.KindTypeName, Value: refTypeName(t)}, tokS("rt:41")}
+		if err != nil || !tokensExactEq(ts, want) {
+			repM.violate("C08", "registered-not-prefixed", fmt.Sprintf("a registered TextMarshaler marshals to [%s] (%v), expected [%s]", descTokens(ts), err, descTokens(want)), "registered text type")
+		}
+		var back regText
+		e := guard(func() error { return copyBudget(tokensFrom(want), sb.Unmarshal(&back)) })
+		var x any
+		e2 := guard(func() error { return copyBudget(tokensFrom(want), sb.Unmarshal(&x)) })
+		repU.Evaluations += 2
+		if e != nil || back != v {
+			repU.violate("C01", "roundtrip-error", fmt.Sprintf("a registered TextUnmarshaler target: %v, got %+v", e, back), "registered text type")
+		}
+		if e2 != nil || x != any(v) {
+			repU.violate("C11", "registered-name-not-resurrected", fmt.Sprintf("a registered text type into any: %T %v (%v)", x, x, e2), "registered text type")
+		}
+	}
+	// unnamed types have no type name (and cannot be registered)
+	for _, t := range []reflect.Type{reflect.TypeOf([]int(nil)), reflect.TypeOf(map[string]int(nil)), reflect.TypeOf(struct{ A int }{}), reflect.TypeOf((*[]int)(nil)), reflect.TypeOf((**struct{})(nil))} {
+		repM.Evaluations++
+		if n := sb.TypeName(t); n != "" {
+			repM.violate("C08", "type-name-wrong", fmt.Sprintf("TypeName(%v) = %q, an unnamed type has no name", t, n), "unnamed type")
+		}
+		if !mustAgree(func() { sb.Register(t) }) {
+			repM.violate("C11", "registered-name-not-resurrected", fmt.Sprintf("Register(%v) accepted a type without a name", t), "unnamed type")
+		}
+	}
+	// the Must* wrappers of the stream helpers
+	{
+		ts := []sb.Token{tokK(sb.KindArray), tokI(1), tokK(sb.KindArrayEnd)}
+		var got sb.Tokens
+		p1 := mustAgree(func() { got = sb.MustTokensFromStream(tokensFrom(ts)) })
+		p2 := mustAgree(func() { sb.MustTokensFromStream(faultyAt(ts, 1)) })
+		var tr *sb.Tree
+		p3 := mustAgree(func() { tr = sb.MustTreeFromStream(tokensFrom(ts)) })
+		p4 := mustAgree(func() { sb.MustTreeFromStream(tokensFrom(append(append([]sb.Token{}, ts...), tokI(2)))) })
+		repU.Evaluations += 4
+		var it []sb.Token
+		if tr != nil {
+			it, _ = collect(tr.Iter())
+		}
+		if p1 || !p2 || p3 || !p4 || !tokensExactEq(got, ts) || !tokensExactEq(it, ts) {
+			repU.violate("C12", "must-wrapper-differs", fmt.Sprintf("MustTokensFromStream / MustTreeFromStream: panicked %v %v %v %v (expected false true false true); tokens [%s]; tree [%s]", p1, p2, p3, p4, descTokens(got), descTokens(it)), "Must* wrappers")
+			repU.violate("C14", "must-wrapper-differs", fmt.Sprintf("MustTokensFromStream / MustTreeFromStream: panicked %v %v %v %v (expected false true false true)", p1, p2, p3, p4), "Must* wrappers")
+		}
 	}
 }
